@@ -1,12 +1,16 @@
 (* Property C06 -- reference resolution implements RFC 3986 section 5.2.  Statements only.
    Spec: Rfc.v (rfc_target = 5.2.2 on components, rds = 5.2.4 on segment lists, merge = 5.2.3).
-   Proved refinement: the branch "reference with no scheme, no authority and an empty path" of the model
-   of resolve (component selection incl. query inheritance) for ALL well-formed bases and references.
-   The branches that remove dot segments (scheme / authority / absolute path / merge) are carried by the
-   correspondence run and the independent RFC oracle (tools/spec.py): partial. *)
+   Proved refinement, for ALL well-formed bases and references:
+   - the branch "no scheme, no authority, empty path" (component selection incl. query inheritance);
+   - the three branches that remove dot segments without merging (reference with a scheme, with an authority,
+     with an absolute path): exact text-level result rds_impl for all inputs, and equality with the RFC target
+     under the exact condition rds_exact (implied by "no empty segment except the last"); outside that condition
+     the code departs from 5.2.4 -- witness C06_K_R2_witness, recorded class K_R2.
+   The merge branch (relative path with at least one segment) is carried by the correspondence run and the
+   independent RFC oracle (tools/spec.py): partial. *)
 From Coq Require Import List NArith Bool Arith.
 Import ListNotations.
-Require Import V.Regex V.Parse V.ParseProofs V.PathSpec V.Splice V.Setters V.Reference V.Rfc V.ResolveProofs.
+Require Import V.Regex V.Parse V.ParseProofs V.PathSpec V.Splice V.Setters V.SetPath V.Reference V.C05Proofs V.Rfc V.ResolveProofs V.NormProofs V.ResolveProofs2.
 Local Open Scope nat_scope.
 
 Theorem C06_empty_path_branch_partial : forall (pb pr : parts) (s : str),
@@ -18,6 +22,42 @@ Proof.
   rewrite <- (target_empty_is_rfc pb pr s Hbs Hrs Hra Hrp). now apply resolve_empty_path.
 Qed.
 Print Assumptions C06_empty_path_branch_partial.
+
+(* the branches that remove dot segments without merging: the reference has a scheme, or an authority, or an
+   absolute path.  Exact result of the model for ALL well-formed inputs: the RFC target with its path computed by
+   rds_impl (the text-level function that pm_normalize + the closing push refine: spec walk `norm`, "./" shield,
+   trailing "/" after a final dot segment) *)
+Theorem C06_no_merge_branches_exact : forall (pb pr : parts) (s : str),
+  wf_parts pb -> wf_parts pr -> p_scheme pb = Some s ->
+  (p_scheme pr <> None \/ p_authority pr <> None \/ is_abs (p_path pr) = true) ->
+  resolve (compose pr) (compose pb) =
+  Some (compose (with_path (rfc_target pb pr) (rds_impl false (has (p_authority (rfc_target pb pr))) (p_path pr)))).
+Proof. exact resolve_no_merge. Qed.
+Print Assumptions C06_no_merge_branches_exact.
+
+(* ... and that is the RFC 3986 5.2.2 target whenever rds_exact holds: the normalised path starts with an empty
+   segment followed by another one only when the result is absolute and has an authority (else the code writes a
+   "./" shield), and it is not the single empty segment after a final dot segment *)
+Theorem C06_no_merge_branches_partial : forall (pb pr : parts) (s : str),
+  wf_parts pb -> wf_parts pr -> p_scheme pb = Some s ->
+  (p_scheme pr <> None \/ p_authority pr <> None \/ is_abs (p_path pr) = true) ->
+  rds_exact (has (p_authority (rfc_target pb pr))) (p_path pr) ->
+  resolve (compose pr) (compose pb) = Some (compose (rfc_target pb pr)).
+Proof. exact resolve_no_merge_rfc. Qed.
+Print Assumptions C06_no_merge_branches_partial.
+
+(* a simple sufficient condition: the reference path has no empty segment except possibly the last one *)
+Theorem C06_rds_exact_simple : forall fa v, (forall l' x, segs v = l' ++ [x] -> ~ In [] l') -> rds_exact fa v.
+Proof. exact rds_exact_simple. Qed.
+Print Assumptions C06_rds_exact_simple.
+
+(* the condition cannot be dropped: s://h//. resolves to s://h/ where 5.2.4 gives s://h// (class K_R2) *)
+Definition K_R2_ref : parts := {| p_scheme := Some [115%N]; p_authority := Some [104%N]; p_path := [47;47;46]%N; p_query := None; p_fragment := None |}.
+Theorem C06_K_R2_witness :
+  resolve (compose K_R2_ref) (compose K_R2_ref) = Some [115;58;47;47;104;47]%N /\
+  compose (rfc_target K_R2_ref K_R2_ref) = [115;58;47;47;104;47;47]%N.
+Proof. vm_compute. split; reflexivity. Qed.
+Print Assumptions C06_K_R2_witness.
 
 (* the 5.2.4 output is always a normal form: no ".", ".." only as a leading run of a relative path *)
 Theorem C06_rds_normal : forall ab l, normal ab (rds_segs ab l).
